@@ -221,7 +221,7 @@ def run(ctx):
             g = tgen.TGen(rnd, small=True)
             for _ in range(3):
                 check(acc, g.leaf(t), g.model_env(), "leaf")
-    n = ctx.scale(4000, 200000)
+    n = ctx.scale(9000, 240000)
     for j in range(n):
         if ctx.expired():
             break
